@@ -77,12 +77,31 @@ Definition know_op (g : ghost) (o : op) (ou : out) : subj -> issuer -> option (Z
 Definition know_after (g : ghost) (o : op) (ou : out) (va : view) : subj -> issuer -> option (Z * tok) :=
   fun s i => if present va s then know_op g o ou s i else None.
 
-Definition wait_start (w : world) (ans : list soap_answer) (involved : list issuer) : list issuer :=
-  filter (fun j => negb (soap_ok w ans j)) involved.
-Definition wait_answer (w : world) (ans : list soap_answer) (i : issuer) (wait : list issuer) : list issuer :=
-  filter (fun j => negb (j =? i)%nat && negb (soap_ok w ans j)) wait.
+(* One pass of logout requests over the IdPs still waited for, in their order.  The pass stops (the
+   client raises) at the first IdP that has no single-logout endpoint, whose stored session information
+   is void (Cache.reset), or that answers a failure status over SOAP; an IdP answers synchronously in the
+   pass iff the pass reaches it and it answers Success over SOAP.  `know` is what is stored for the subject. *)
+Definition is_none {A} (o : option A) : bool := match o with None => true | Some _ => false end.
+Definition stopper (w : world) (know : issuer -> option (Z * tok)) (ans : list soap_answer) (e : issuer) : bool :=
+  match choose w e with
+  | None => true
+  | Some b => is_none (know e)
+              || match b with SOAP => match answer ans e with SA_fail => true | _ => false end | _ => false end
+  end.
+Fixpoint reached (stop : issuer -> bool) (l : list issuer) : list issuer :=
+  match l with [] => [] | e :: r => if stop e then [] else e :: reached stop r end.
+Definition pass_wait (w : world) (know : issuer -> option (Z * tok)) (ans : list soap_answer) (l : list issuer)
+  : list issuer :=
+  filter (fun e => negb (soap_ok w ans e && mem e (reached (stopper w know ans) l))) l.
+Definition pass_soap_ok (w : world) (know : issuer -> option (Z * tok)) (ans : list soap_answer) (l : list issuer)
+  : bool := existsb (soap_ok w ans) (reached (stopper w know ans) l).
+
 Definition wait_minus (i : issuer) (wait : list issuer) : list issuer :=
   filter (fun j => negb (j =? i)%nat) wait.
+Definition wait_start (w : world) (g : ghost) (s : subj) (ans : list soap_answer) (involved : list issuer) :=
+  pass_wait w (g_know g s) ans involved.
+Definition wait_answer (w : world) (g : ghost) (s : subj) (ans : list soap_answer) (i : issuer) (wait : list issuer) :=
+  pass_wait w (g_know g s) ans (wait_minus i wait).
 Definition is_nil {A} (l : list A) : bool := match l with [] => true | _ => false end.
 Definition is_sent (ou : out) : bool := match ou with OSent _ => true | _ => false end.
 
@@ -121,7 +140,7 @@ Definition ghost_step (w : world) (g : ghost) (vb : view) (o : op) (ou : out) (v
       if present vb s then
         let n := g_ntxn g in
         let involved := issuers_of vb s in
-        let wait := wait_start w ans involved in
+        let wait := wait_start w g s ans involved in
         let T := {| t_subj := s; t_wait := wait; t_deadline := dl; t_soap := existsb (asked_by_soap w) involved |} in
         base_ghost g o ou va
           (txn_set (g_txn g) n (if deadline_passed (g_now g) dl || is_nil wait then None else Some T))
@@ -130,7 +149,7 @@ Definition ghost_step (w : world) (g : ghost) (vb : view) (o : op) (ou : out) (v
   | LogoutResponse r i success ans =>
       match answering g r i success with
       | Some (n, T) =>
-          let wait' := wait_answer w ans i (t_wait T) in
+          let wait' := wait_answer w g (t_subj T) ans i (t_wait T) in
           let T' := {| t_subj := t_subj T; t_wait := wait'; t_deadline := t_deadline T; t_soap := t_soap T |} in
           base_ghost g o ou va
             (txn_set (g_txn g) n (if deadline_passed (g_now g) (t_deadline T) || is_nil wait' then None else Some T'))
@@ -219,7 +238,7 @@ Definition cl_ends : clause := fun w g vb o ou va =>
   | StartLogout s dl ans =>
       keeps vb va (Some s) /\ no_new vb va None /\
       (present vb s = true ->
-         let wait := wait_start w ans (issuers_of vb s) in
+         let wait := wait_start w g s ans (issuers_of vb s) in
          if deadline_passed (g_now g) dl then present va s = false
          else (wait = [] -> is_sent ou = true -> present va s = false)
               /\ (present va s = false -> wait = []))
@@ -227,7 +246,7 @@ Definition cl_ends : clause := fun w g vb o ou va =>
       match answering g r i success with
       | Some (n, T) =>
           let s := t_subj T in
-          let wait' := wait_answer w ans i (t_wait T) in
+          let wait' := wait_answer w g (t_subj T) ans i (t_wait T) in
           keeps vb va (Some s) /\ no_new vb va None /\
           (if deadline_passed (g_now g) (t_deadline T) then present va s = false
            else (wait_minus i (t_wait T) = [] -> present va s = false)
@@ -267,23 +286,22 @@ Definition spec (w : world) (t0 : Z) (tr : trace) : Prop := spec_cl step_ok w t0
      class 3  (fixed by 73294247) when a successful LogoutResponse carries an id that the client still
               keeps in its state although the request's transaction is over (completed, or the
               session ended otherwise);
-     class 4  (open, the residue of 3) when a successful LogoutResponse carries the id of a request
-              that the client still keeps, of a transaction still in progress, whose addressee has
+     class 4  (fixed by e58d2614, the residue of 3) when a successful LogoutResponse carries the id of a
+              request that the client still keeps, of a transaction still in progress, whose addressee has
               ALREADY answered through another request of the same transaction (do_logout asks the
               remaining IdPs again after every answer), and comes from that addressee;
-     class 5  (open, the residue of 1) when a pass of do_logout over the IdPs still waited for (at the
-              start of a global logout, or after an answer, deadline not passed) contains an IdP that
-              answers Success over SOAP and the pass ends with an exception (a SOAP peer's failure
-              status, LogoutError for a SOAP peer without answer, an IdP without SLO endpoint, ...):
-              0bae05f7 records synchronous answers only after a pass that does not raise.
-   Classes 1, 2 and 3 are recognised so that a regression is attributed to them; the repaired code
-   never violates a clause there, so the guard only excludes the open classes 4 and 5. *)
+     class 5  (fixed by 10d8560b, the residue of 1) when a pass of do_logout over the IdPs still waited
+              for (at the start of a global logout, or after an answer, deadline not passed) reaches an IdP
+              that answers Success over SOAP and the pass ends with an exception: 0bae05f7 recorded
+              synchronous answers only after a pass that does not raise.
+   All classes are recognised so that a regression is attributed to them; the repaired code never
+   violates a clause, so there is no guard any more (`open_class` is empty). *)
 Definition is_exn (ou : out) : bool := match ou with OExn _ => true | _ => false end.
 Definition trigger (w : world) (g : ghost) (vb : view) (o : op) (ou : out) : nat :=
   match o with
   | StartLogout s dl ans =>
       if present vb s && existsb (asked_by_soap w) (issuers_of vb s) then
-        if negb (deadline_passed (g_now g) dl) && existsb (soap_ok w ans) (issuers_of vb s) && is_exn ou
+        if negb (deadline_passed (g_now g) dl) && pass_soap_ok w (g_know g s) ans (issuers_of vb s) && is_exn ou
         then 5%nat else 1%nat
       else 0%nat
   | LogoutResponse r i true ans =>
@@ -293,7 +311,7 @@ Definition trigger (w : world) (g : ghost) (vb : view) (o : op) (ou : out) : nat
           | Some T =>
               if (a =? i)%nat then
                 if negb (deadline_passed (g_now g) (t_deadline T))
-                   && existsb (soap_ok w ans) (wait_minus i (t_wait T)) && is_exn ou
+                   && pass_soap_ok w (g_know g (t_subj T)) ans (wait_minus i (t_wait T)) && is_exn ou
                 then 5%nat else 0%nat
               else 2%nat
           | None => if mem r (pending_ids vb) then 3%nat else 0%nat
@@ -313,7 +331,7 @@ Definition trigger (w : world) (g : ghost) (vb : view) (o : op) (ou : out) : nat
   | _ => 0%nat
   end.
 
-Definition open_class (k : nat) : bool := (k =? 4)%nat || (k =? 5)%nat.
+Definition open_class (k : nat) : bool := false.
 Definition open_trigger (w : world) (g : ghost) (vb : view) (o : op) (ou : out) : nat :=
   let k := trigger w g vb o ou in if open_class k then k else 0%nat.
 
@@ -430,7 +448,7 @@ Section StepB.
     | StartLogout s dl ans =>
         keeps_b (Some s) && no_new_b None &&
         (negb (present vb s) ||
-           let wait := wait_start w ans (issuers_of vb s) in
+           let wait := wait_start w g s ans (issuers_of vb s) in
            if deadline_passed (g_now g) dl then negb (present va s)
            else (negb (is_nil wait) || negb (is_sent ou) || negb (present va s))
                 && (present va s || is_nil wait))
@@ -438,7 +456,7 @@ Section StepB.
         match answering g r i success with
         | Some (n, T) =>
             let s := t_subj T in
-            let wait' := wait_answer w ans i (t_wait T) in
+            let wait' := wait_answer w g (t_subj T) ans i (t_wait T) in
             keeps_b (Some s) && no_new_b None &&
             (if deadline_passed (g_now g) (t_deadline T) then negb (present va s)
              else (negb (is_nil (wait_minus i (t_wait T))) || negb (present va s))
